@@ -3,8 +3,10 @@
    PART/AFIX/RESI objects of Shelxfile._parse_cards with their HKLF/END resets, FRAG mode, and the attribute
    assignment of Atom.parse_line as repaired); spec: Spec/CtxSpec.v (direct recursion over the lines of the file).
    Element lookup, numeric reading, include-file splicing and the derived views are checked on the implementation
-   against the by-construction model (harness/props/c03.py). *)
-From SX Require Import Base.Str Model.Ctx Spec.CtxSpec Proofs.CtxProofs.
+   against the by-construction model (harness/props/c03.py); of the splicing one fact is a theorem here (Model/Writer.v):
+   what is spliced in for an include file ends in front of its first END line, so that the END of an include file
+   never ends the res file (C03_include_file_ends_at_END). *)
+From SX Require Import Base.Str Model.Ctx Spec.CtxSpec Proofs.CtxProofs Model.Writer Proofs.WriterProofs.
 From Coq Require Import QArith.
 
 Theorem C03_atoms_correct evs : forallb event_ok evs = true -> atoms_of evs = expected_atoms evs.
@@ -30,6 +32,12 @@ Print Assumptions C03_atoms_in_file_order.
 Theorem C03_atoms_count evs : length (atoms_of evs) = length (atom_lines false evs).
 Proof. exact (atoms_count evs). Qed.
 Print Assumptions C03_atoms_count.
+
+Theorem C03_include_file_ends_at_END inc :
+  Forall (fun l => is_end_line l = false) (until_end inc) /\
+  (until_end inc = inc \/ exists e rest, inc = until_end inc ++ e :: rest /\ is_end_line e = true).
+Proof. exact (until_end_spec inc). Qed.
+Print Assumptions C03_include_file_ends_at_END.
 
 Theorem C03_ctx_example :
   map (fun a => (a_part a, a_afix a, a_resinum a, a_sof a, a_qpeak a))
